@@ -3,6 +3,7 @@ CONSTANTS Slots = {1, 2}  Handles = {1, 2}  MaxLevel = 6  MaxNodes = 12  MutNode
 INIT Init
 NEXT Next
 CONSTRAINT Bound
+VIEW View
 INVARIANT TypeOK
 INVARIANT LoadedIsWritten
 INVARIANT LoadedClauseWise
